@@ -4333,7 +4333,12 @@ class ParameterizedMetaclass(type):
                 dinfo = getattr(method, '_dinfo', {'watch': False})
                 if (not any(dep[0] == w[0] for w in _watch+_inherited)
                     and dinfo.get('watch')):
-                    _inherited.append(dep)
+                    # Resolve the dependencies again for this class: the method that
+                    # applies here (and the methods it depends on) may be overridden
+                    minfo = MInfo(cls=mcs, inst=None, name=dep[0], method=method)
+                    deps, dynamic_deps = _params_depended_on(minfo, dynamic=False)
+                    _inherited.append((dep[0], dinfo['watch'] == 'queued',
+                                       dinfo.get('on_init', False), deps, dynamic_deps))
 
         mcs.param._depends = {'watch': _inherited+_watch}
 
